@@ -29,6 +29,12 @@ def run(repo, res):
     # ---- R1 get_expr_end: abstractly interpreted on symbolic expression trees --------------------------
     from ..exprend import expr_end_semantics
     sem = expr_end_semantics(repo)
+    from ..exprend import expr_end_layouts
+    for text, ok, detail in expr_end_layouts(repo):
+        if ok is None:
+            raise AnalysisError('get_expr_end is outside the interpretable subset on %r: %s' % (text, detail))
+        res.check('C13-R1', 'get_expr_end on the layout %r' % text, ok, 'supp/util.py', 0, 'the end of a value must be the start of its textually last node plus one column in every layout: %s' % detail,
+                  sample='get_expr_end(%r) = start of the textually last node + 1 column' % text)
     for cls, verdict, detail in sem:
         if verdict == 'unknown':
             raise AnalysisError('get_expr_end is outside the interpretable subset: %s' % detail)
